@@ -1,5 +1,5 @@
 (* Props/C09.v — cw4: totals and point-in-time member weights always match the true history. *)
-Require Import CwPlus.Params CwPlus.Base CwPlus.AMap CwPlus.Cw4Model CwPlus.Cw4Snap CwPlus.Cw4Lemmas.
+Require Import CwPlus.Params CwPlus.Base CwPlus.AMap CwPlus.Cw4Model CwPlus.Cw4Snap CwPlus.Cw4Lemmas CwPlus.Cw4Check CwPlus.Cw4Lemmas2.
 Open Scope N_scope.
 
 (* in every state reachable from any accepted instantiation (cw4-group or cw4-stake) by any history
@@ -44,6 +44,17 @@ Theorem c09_update_members_pointwise : forall st blk sender add rem st' ms top,
       if existsb (N.eqb a) rem' then None
       else match lassoc (sort_members add') a with Some w => Some w | None => m_cur (members st) a end.
 Proof. exact update_members_pointwise. Qed.
+(* the step-contract clause S_C09/8 that every run evaluates on the implementation (computed from the
+   SUBMITTED add/remove lists: any removal wins, otherwise the last weight given, otherwise unchanged) never
+   fires on the model's own accepted UpdateMembers, whenever the observed point queries are the model's *)
+Theorem c09_update_contract_never_fires_on_model : forall npool pre post st blk sender add rem st' ms top,
+  Inv st top -> top <= height blk ->
+  (forall a, lookup (ob_now pre) a = m_cur (members st) a) ->
+  (forall a, lookup (ob_now post) a = m_cur (members st') a) ->
+  update_members st blk sender add rem = Ok (st', ms) ->
+  s_c09_update npool pre post (UpdateMembers add rem) true = 0.
+Proof. exact s_c09_update_sound. Qed.
+
 Example c09_nonvacuous :
   exists st, instantiate (mkInit false (Some (Some 0)) [(Some 1, 5); (Some 2, 7)] cfg_default) (mkBlock 10 0) = Ok st /\
     let cs := [(mkBlock 12 0, 0, UpdateMembers [(Some 1, 9)] [Some 2], true);
@@ -60,3 +71,4 @@ Print Assumptions c09_total_at.
 Print Assumptions c09_sound.
 Print Assumptions c09_model.
 Print Assumptions c09_update_members_pointwise.
+Print Assumptions c09_update_contract_never_fires_on_model.
